@@ -150,6 +150,20 @@ def check_model(model, globals0, limit=LIMIT, validate=True, hosts=None):
         if model != before:
             raise Violation('execute_script modified the model on re-execution', d, 'model-modified')
     _counter[0] += 1
+    if not hosts and _counter[0] % 3 == 1:
+        # nobody listens: without a logFn the log statements still run (their arguments are evaluated - calls in them happen), only the text goes nowhere
+        g2 = copy.deepcopy(globals0)
+        try:
+            res2 = ('ok', impl.bs.execute_script(model, {'globals': g2, 'maxStatements': limit}))
+        except impl.bs.RuntimeError as e:
+            res2 = ('runtime-error', str(e))
+        except Exception as e:  # pylint: disable=broad-except
+            res2 = ('host-exception', '%s: %s' % (type(e).__name__, e))
+        u2 = user_view(g2, True)
+        if res2[0] != a[0][0] or (res2[0] != 'ok' and res2 != a[0]) or (res2[0] == 'ok' and not values_equal(res2[1], a[0][1], lambda x, y: True)) or \
+                sorted(u2) != sorted(ua) or any(not values_equal(u2[k], ua[k]) for k in ua):
+            raise Violation('without a logFn the run ends with %r and globals %r; with one it ends with %r and globals %r' % (res2, u2, a[0], ua), dict(d, how='no-logFn'),
+                            'no-logfn-run')
     if not hosts and _counter[0] % 3 == 0:
         # the same model run by a host that supplies no globals (options without the member, or no options at all): every such run
         # starts from empty globals, whatever earlier runs in this process left behind
@@ -196,7 +210,8 @@ def _with_deadline(seconds, fn):
 # ---- random hand-built models -----------------------------------------------------------------------------------------
 
 LIBRARY_EDGE_NAMES = ['urlEncodeComponent', 'arrayCopy', 'urlEncode', 'systemType', 'arrayDelete', 'stringUpper', 'mathSqrt', 'regexTest']     # first / last names of the library table and a few others
-LABEL_POOLS = [['A', 'B', 'C', 'D']] * 3 + [['', 'B', '0', 'A b'], ['__bareScriptDone0', '__bareScriptLoop0', 'A', ''], ['label', '\u00e9', 'a.b', 'A'], ['A', 'a', ' A', 'A ']]
+LABEL_POOLS = [['A', 'B', 'C', 'D']] * 3 + [['__bareScriptLoop0', '__bareScriptLoop0', '__bareScriptLoop12', 'A'], ['__bareScriptLoop', '__bareScriptLoop', '__bareScriptContinue0'],
+               ['', 'B', '0', 'A b'], ['__bareScriptDone0', '__bareScriptLoop0', 'A', ''], ['label', '\u00e9', 'a.b', 'A'], ['A', 'a', ' A', 'A ']]
 # values a conditional jump may test directly (the documented truth table: null, false, 0, '', [] are false - everything else, the empty object included, is true)
 TRUTH_POOL = [None, True, False, 0.0, -0.0, 1.0, 0, 2, '', '0', 'x', [], [0.0], {}, {'a': None}, float('nan'), datetime.datetime(1970, 1, 1), datetime.date(2020, 1, 1)]
 
@@ -232,6 +247,7 @@ def random_model(rnd, size):
                 out.append(rnd.choice([{'expr': {'name': wname, 'expr': {'number': 7.0}}}, {'return': {'expr': V(wname)}},
                                        {'expr': {'expr': {'function': {'name': 'systemLog', 'args': [V(wname)]}}}},
                                        # a function value kept under a second name (the alias still denotes the OLD function after the name is defined again)
+                                       {'expr': {'expr': {'function': {'name': 'systemLog', 'args': [{'function': {'name': rnd.choice(fnames), 'args': [V('n')]}}]}}}},
                                        {'expr': {'name': 'al', 'expr': V(rnd.choice(fnames))}},
                                        {'expr': {'name': 'r', 'expr': {'function': {'name': 'al', 'args': [V('n')]}}}}]))
             elif k < 0.62:
